@@ -1,4 +1,4 @@
-import Witverif.Proofs.Chan
+import Witverif.Proofs.StreamWrite
 /-!
 # C19 — Stream writes and reads transfer each value exactly once, in order
 
@@ -258,6 +258,67 @@ theorem dropped_sets_done_partial :
   · intro s ans hd; simp [streamWriteOps, hd]
   · intro s ans hd; simp [streamReadOps, hd]
   · intro p; rfl
+
+/-! ## The guest-writer stream channel as a labelled transition system (`_partial`, full strength)
+
+`SWReach p s tr`: state `s` of a guest-writer stream channel (`ChanSys`: the `StreamWriter`, the future the
+body holds — `write` / `write_buf`, `write_all`, `write_one` at any of their `await` points — and a kept
+`AbiBuffer`, on the generic `WaitableOperation` machine, composed with the host's rules for the end) is
+reachable from the fresh channel by labels that are legal (`CLegal`: any body instruction between steps, in
+any order and number — open, write n, write_buf, into_vec, write_all n, write_one, poll, cancel, drop the
+future, drop the end —; for the host exactly what `Host.End` allows: BLOCKED / COMPLETED|k / DROPPED at
+once, the peer taking items in any number of steps or dropping while the end is copying, delivery of the
+pending event, cancel answers = the pending code or any resolved race CANCELLED|k / COMPLETED|k /
+DROPPED|k) AND satisfy the exact extra hypothesis `NoUseAfterDropped`: the body does not poll a write that
+would call the host on an end the host has marked done (i.e. it does not write again after
+`StreamResult::Dropped`).  Any buffers, all payload kinds, both task ABI versions; induction over the step
+relation, no depth bound. -/
+
+/-- **`stream_never_traps_partial`**: under `NoUseAfterDropped` every legal step of a guest-writer stream
+channel is free of Rust panics (`advance`'s `assert!`, `write_all`'s `assert!`, `unwrap`s of the waitable
+machine, `unreachable!`) and of host traps, and leads to a reachable state again. -/
+theorem stream_never_traps_partial {p : SWP} (hh : p.hd ≠ 0) (hv : p.v = 1 ∨ p.v = 2) {s : ChanSys} {tr : List Ev}
+    (h : SWReach p s tr) (l : CLabel) (hl : SWLegal p s l) :
+    ∃ s' evs, s.step l = .ok s' evs ∧ s'.h.trapped = false ∧ SWReach p s' (tr ++ evs) := by
+  have hg := sw_step_safe p s l (sw_reach_inv hh hv h).1 hl
+  cases hs : s.step l with
+  | panic msg evs => rw [hs] at hg; exact absurd hg (by simp [SWGood])
+  | ok s' evs =>
+    rw [hs] at hg
+    exact ⟨s', evs, rfl, hg.1, SWReach.step h hl hs⟩
+
+/-- in every reachable state the host has not trapped -/
+theorem stream_writer_reachable_untrapped {p : SWP} (hh : p.hd ≠ 0) (hv : p.v = 1 ∨ p.v = 2) {s : ChanSys} {tr : List Ev}
+    (h : SWReach p s tr) : s.h.trapped = false := (sw_reach_inv hh hv h).2
+
+/-- **The host reads the guest's buffer where the guest's cursor is** (FIFO, state level): whenever the
+host's end is copying in a reachable state, the write in flight holds a buffer `b` such that the window
+the host reads from IS `b.window` (the values from the cursor on, in order), the size it was offered is
+`min remaining MAX_LENGTH`, what it has taken so far is within that, the pending event (if any) carries
+exactly that count, and the operation is registered with the task exactly once. -/
+theorem host_reads_at_the_cursor {p : SWP} (hh : p.hd ≠ 0) (hv : p.v = 1 ∨ p.v = 2) {s : ChanSys} {tr : List Ev}
+    (h : SWReach p s tr) (hc : s.h.e.st = .copying) :
+    ∃ b, p.okBuf b ∧ s.h.window = b.window ∧ s.h.e.n = min b.remaining Limits.streamMaxLength ∧ s.h.e.progress ≤ s.h.e.n ∧
+      (s.h.e.pending = none ∧ s.h.e.progress = 0 ∨
+       s.h.e.pending = some (Host.packCode Host.COMPLETED s.h.e.progress) ∨
+       s.h.e.pending = some (Host.packCode Host.DROPPED s.h.e.progress)) ∧
+      s.env.regs = [(p.tp, p.hd)] := by
+  obtain ⟨_, _, sh, rfl, hok⟩ := (sw_reach_inv hh hv h).1
+  cases sh with
+  | waiting n k b pr pend rcv =>
+    simp only [swOk] at hok
+    exact ⟨b, hok.1, rfl, rfl, hok.2.1, hok.2.2, rfl⟩
+  | idle n gd hdn kept win rcv => cases hdn <;> simp [swSys, swHost, stOf] at hc
+  | ready n gd hdn b win rcv => cases hdn <;> simp [swSys, swHost, stOf] at hc
+  | allNew n one items gd hdn win rcv => cases hdn <;> simp [swSys, swHost, stOf] at hc
+  | running n one b gs gd hdn win rcv => cases hdn <;> simp [swSys, swHost, stOf] at hc
+  | queued n k b code rcv =>
+    simp only [swOk, codeOk] at hok
+    obtain ⟨_, base, j, rfl, hb, _⟩ := hok
+    rcases hb with rfl | rfl <;>
+      simp [swSys, swHost, Host.End.stAfter, Host.packCode, Host.COMPLETED, Host.DROPPED, Host.BLOCKED, Host.codeBase] at hc <;> omega
+  | gone n st win rcv => simp only [swOk] at hok; simp [swSys, swHost] at hc; exact absurd hc hok
+  | closed => simp [swSys] at hc
 
 /-! ## Non-vacuity -/
 
